@@ -59,3 +59,10 @@ claim('C04', 'inductive-step symbolic execution: one real writer call / one extr
       'names with symbolic spelling are shown to reach the stack verbatim.',
       BASE_NOTE + ' If the named internals disappear the step is skipped (recorded) and C01 history bounds apply.',
       'DESIGN.md section 4, C04; Appendix A')
+
+claim('C02', 'differential bounded symbolic execution: real DiffXWriter vs independent serializer REF_WRITE (written from the specification), byte-for-byte equality decided by z3',
+      'For every own/inherited encoding of the catalogue, indent, line_endings, mimetype / diff type and each section id, '
+      'the real writer runs on fully symbolic preamble text (1..3 quick / 1..4 thorough code points) or diff bytes '
+      '(1..4 / 1..5) and z3 shows the output equals REF_WRITE byte for byte; header grammar, sorted options and '
+      'length framing are additionally checked without the reference.',
+      BASE_NOTE + ' REF_WRITE is /verif/ref/spec.py; canonical JSON text from json.dumps.', 'DESIGN.md section 4, C02; section 3')
